@@ -153,4 +153,161 @@ theorem sum_frameSq_le (xs : List (Frame ℝ)) (B2 : ℝ) (h : ∀ x ∈ xs, fra
     have h2 := h f List.mem_cons_self
     linarith
 
+/-! ## a strict Lyapunov function: `W = p² + q² + (k/2)·p·q` per channel -/
+
+/-- weighted energy of one channel -/
+noncomputable def svfW (k p q : ℝ) : ℝ := p ^ 2 + q ^ 2 + k / 2 * p * q
+
+/-- the constant `K(g,k) = 3(1+gk)² + 3g² + 2` -/
+noncomputable def svfK (g k : ℝ) : ℝ := 3 * (1 + g * k) ^ 2 + 3 * g ^ 2 + 2
+/-- the contraction rate `λ = g·k / (6·K)` -/
+noncomputable def svfLam (g k : ℝ) : ℝ := g * k / (6 * svfK g k)
+/-- the input gain `C = 3g³k/(4K) + g(16/k + k)` -/
+noncomputable def svfC (g k : ℝ) : ℝ := 3 * g ^ 3 * k / (4 * svfK g k) + g * (16 / k + k)
+
+theorem svfK_pos (g k : ℝ) : 0 < svfK g k := by unfold svfK; positivity
+
+theorem svfLam_pos (g k : ℝ) (hg : 0 < g) (hk : 0 < k) : 0 < svfLam g k := by
+  have := svfK_pos g k
+  unfold svfLam; positivity
+
+theorem svfLam_le_one (g k : ℝ) (hg : 0 < g) (hk : 0 < k) : svfLam g k ≤ 1 := by
+  have hK := svfK_pos g k
+  unfold svfLam
+  rw [div_le_one (by positivity)]
+  have : g * k ≤ svfK g k := by
+    unfold svfK; nlinarith [sq_nonneg (1 - g * k), sq_nonneg g, mul_pos hg hk]
+  linarith
+
+theorem svfC_nonneg (g k : ℝ) (hg : 0 < g) (hk : 0 < k) : 0 ≤ svfC g k := by
+  have := svfK_pos g k
+  unfold svfC; positivity
+
+/-- `W` is positive definite for `0 < k ≤ 2`: `½(p²+q²) ≤ W ≤ (3/2)(p²+q²)` -/
+theorem svfW_bounds (k p q : ℝ) (hk : 0 < k) (hk2 : k ≤ 2) :
+    1 / 2 * (p ^ 2 + q ^ 2) ≤ svfW k p q ∧ svfW k p q ≤ 3 / 2 * (p ^ 2 + q ^ 2) := by
+  unfold svfW
+  have h2 : 0 ≤ 2 - k := by linarith
+  constructor
+  · nlinarith [mul_nonneg hk.le (sq_nonneg (p + q)), mul_nonneg h2 (sq_nonneg p), mul_nonneg h2 (sq_nonneg q)]
+  · nlinarith [mul_nonneg hk.le (sq_nonneg (p - q)), mul_nonneg h2 (sq_nonneg p), mul_nonneg h2 (sq_nonneg q)]
+
+/-- exact balance of `W` in terms of the taps `v1 v2` -/
+theorem svf_lyap_identity (g k v1 v2 y : ℝ) :
+    svfW k (v1 * 2 - (v1 * (1 + g * k) + g * v2 - g * y)) (v2 * 2 - (v2 - g * v1))
+        - svfW k (v1 * (1 + g * k) + g * v2 - g * y) (v2 - g * v1)
+      = -(g * k) * (3 * v1 ^ 2 + k * v1 * v2 + v2 ^ 2) + g * y * (4 * v1 + k * v2) := by
+  unfold svfW; ring
+
+theorem svf_lyap_quad (k v1 v2 : ℝ) (hk : 0 < k) (hk2 : k ≤ 2) :
+    1 / 2 * (v1 ^ 2 + v2 ^ 2) ≤ 3 * v1 ^ 2 + k * v1 * v2 + v2 ^ 2 := by
+  have h2 : 0 ≤ 2 - k := by linarith
+  nlinarith [mul_nonneg hk.le (sq_nonneg (2 * v1 + v2)), mul_nonneg hk.le (sq_nonneg v1),
+    mul_nonneg h2 (sq_nonneg v1), mul_nonneg h2 (sq_nonneg v2)]
+
+theorem svf_young1 (k v y : ℝ) (hk : 0 < k) : y * (4 * v) ≤ k / 4 * v ^ 2 + 16 / k * y ^ 2 := by
+  have e : k / 4 * v ^ 2 + 16 / k * y ^ 2 - y * (4 * v) = k / 4 * (v - 8 * y / k) ^ 2 := by
+    field_simp; ring
+  have : 0 ≤ k / 4 * (v - 8 * y / k) ^ 2 := by positivity
+  linarith
+
+theorem svf_young2 (k v y : ℝ) (hk : 0 < k) : y * (k * v) ≤ k / 4 * v ^ 2 + k * y ^ 2 := by
+  nlinarith [mul_nonneg hk.le (sq_nonneg (v - 2 * y))]
+
+/-- the state is small when the taps and the input are -/
+theorem svf_state_le_taps (g k v1 v2 y : ℝ) (hk : 0 < k) (hk2 : k ≤ 2) :
+    svfW k (v1 * (1 + g * k) + g * v2 - g * y) (v2 - g * v1)
+      ≤ 3 / 2 * svfK g k * (v1 ^ 2 + v2 ^ 2) + 9 / 2 * g ^ 2 * y ^ 2 := by
+  have hW := (svfW_bounds k (v1 * (1 + g * k) + g * v2 - g * y) (v2 - g * v1) hk hk2).2
+  have hp : (v1 * (1 + g * k) + g * v2 - g * y) ^ 2
+      ≤ 3 * ((v1 * (1 + g * k)) ^ 2 + (g * v2) ^ 2 + (g * y) ^ 2) := by
+    nlinarith [sq_nonneg (v1 * (1 + g * k) - g * v2), sq_nonneg (v1 * (1 + g * k) + g * y),
+      sq_nonneg (g * v2 + g * y)]
+  have hq : (v2 - g * v1) ^ 2 ≤ 2 * (v2 ^ 2 + (g * v1) ^ 2) := by
+    nlinarith [sq_nonneg (v2 + g * v1)]
+  have hs : 3 * ((v1 * (1 + g * k)) ^ 2 + (g * v2) ^ 2 + (g * y) ^ 2) + 2 * (v2 ^ 2 + (g * v1) ^ 2)
+      ≤ svfK g k * (v1 ^ 2 + v2 ^ 2) + 3 * g ^ 2 * y ^ 2 := by
+    unfold svfK
+    nlinarith [mul_nonneg (sq_nonneg g) (sq_nonneg v1), sq_nonneg v1,
+      mul_nonneg (sq_nonneg (1 + g * k)) (sq_nonneg v2)]
+  linarith
+
+/-- one-channel contraction in terms of the taps -/
+theorem svf_lyap_v (g k v1 v2 y p q : ℝ) (hp : p = v1 * (1 + g * k) + g * v2 - g * y)
+    (hq : q = v2 - g * v1) (hg : 0 < g) (hk : 0 < k) (hk2 : k ≤ 2) :
+    svfW k (v1 * 2 - p) (v2 * 2 - q) ≤ (1 - svfLam g k) * svfW k p q + svfC g k * y ^ 2 := by
+  subst hp hq
+  have hid := svf_lyap_identity g k v1 v2 y
+  have hquad := svf_lyap_quad k v1 v2 hk hk2
+  have hy1 := svf_young1 k v1 y hk
+  have hy2 := svf_young2 k v2 y hk
+  have hst := svf_state_le_taps g k v1 v2 y hk hk2
+  have hK := svfK_pos g k
+  have hgk : 0 ≤ g * k := by positivity
+  have h1 := mul_le_mul_of_nonneg_left hquad hgk
+  have h2 := mul_le_mul_of_nonneg_left hy1 hg.le
+  have h3 := mul_le_mul_of_nonneg_left hy2 hg.le
+  have hl := mul_le_mul_of_nonneg_left hst (svfLam_pos g k hg hk).le
+  have e : svfLam g k * (3 / 2 * svfK g k * (v1 ^ 2 + v2 ^ 2) + 9 / 2 * g ^ 2 * y ^ 2)
+      = g * k / 4 * (v1 ^ 2 + v2 ^ 2) + 3 * g ^ 3 * k / (4 * svfK g k) * y ^ 2 := by
+    unfold svfLam; field_simp; ring
+  have eC : svfC g k * y ^ 2 = 3 * g ^ 3 * k / (4 * svfK g k) * y ^ 2 + g * (16 / k * y ^ 2 + k * y ^ 2) := by
+    unfold svfC; ring
+  rw [e] at hl
+  rw [eC]
+  nlinarith
+
+/-- one-channel contraction of the tick itself -/
+theorem svf_lyap_scalar (g k a p q y : ℝ) (ha : a * (1 + g * (g + k)) = 1)
+    (hg : 0 < g) (hk : 0 < k) (hk2 : k ≤ 2) :
+    svfW k ((p * a + (y - q) * (g * a)) * 2 - p)
+        ((q + p * (g * a) + (y - q) * (g * (g * a))) * 2 - q)
+      ≤ (1 - svfLam g k) * svfW k p q + svfC g k * y ^ 2 := by
+  apply svf_lyap_v g k _ _ y p q _ _ hg hk hk2
+  · linear_combination (-(p + g * (y - q))) * ha
+  · ring
+
+/-- stereo weighted energy -/
+noncomputable def svfW2 (k : ℝ) (v : Frame ℝ × Frame ℝ) : ℝ :=
+  svfW k v.1.left v.2.left + svfW k v.1.right v.2.right
+
+theorem svfW2_bounds (k : ℝ) (v : Frame ℝ × Frame ℝ) (hk : 0 < k) (hk2 : k ≤ 2) :
+    1 / 2 * svfEnergy v ≤ svfW2 k v ∧ svfW2 k v ≤ 3 / 2 * svfEnergy v := by
+  have hl := svfW_bounds k v.1.left v.2.left hk hk2
+  have hr := svfW_bounds k v.1.right v.2.right hk hk2
+  unfold svfW2 svfEnergy
+  constructor <;> linarith [hl.1, hl.2, hr.1, hr.2]
+
+/-- **strict contraction with input**: `W' ≤ (1 − λ)·W + C·|x|²` -/
+theorem svfStep_lyap (g k : ℝ) (hg : 0 < g) (hk : 0 < k) (hk2 : k ≤ 2) (v : Frame ℝ × Frame ℝ)
+    (f : Frame ℝ) :
+    svfW2 k (svfStep g k v f) ≤ (1 - svfLam g k) * svfW2 k v + svfC g k * frameSq f := by
+  have hD : (1 + g * (g + k)) ≠ 0 := by positivity
+  have ha : 1 / (1 + g * (g + k)) * (1 + g * (g + k)) = 1 := by field_simp
+  have hl := svf_lyap_scalar g k _ v.1.left v.2.left f.left ha hg hk hk2
+  have hr := svf_lyap_scalar g k _ v.1.right v.2.right f.right ha hg hk hk2
+  unfold svfW2 frameSq svfStep
+  simp only [svfTick_real]
+  linarith
+
+/-- induction over a run: a contraction with bounded input keeps the energy below any level `M`
+    with `C·B² ≤ λ·M` that it starts below -/
+theorem runTick_contract {V : Type} (tick : V → Frame ℝ → V × Frame ℝ) (E : V → ℝ) (lam C B2 M : ℝ)
+    (hl1 : lam ≤ 1) (hC : 0 ≤ C) (hM : C * B2 ≤ lam * M)
+    (h : ∀ v f, E (tick v f).1 ≤ (1 - lam) * E v + C * frameSq f) :
+    ∀ (xs : List (Frame ℝ)), (∀ x ∈ xs, frameSq x ≤ B2) → ∀ v : V, E v ≤ M →
+      E (runTick tick v xs).1 ≤ M := by
+  intro xs
+  induction xs with
+  | nil => intro _ v hv; simpa [runTick] using hv
+  | cons f fs ih =>
+    intro hB v hv
+    simp only [runTick]
+    apply ih (fun x hx => hB x (List.mem_cons_of_mem _ hx))
+    have h1 := h v f
+    have h2 := hB f List.mem_cons_self
+    have h3 : (1 - lam) * E v ≤ (1 - lam) * M := mul_le_mul_of_nonneg_left hv (by linarith)
+    have h4 : C * frameSq f ≤ C * B2 := mul_le_mul_of_nonneg_left h2 hC
+    linarith
+
 end K
